@@ -478,6 +478,11 @@ def judge(rec, template=None):
     if template is None:
         template = z3.And(*z3.parse_smt2_string(rec['template_smt2']))
     env = {}
+    for n_, v_ in (rec.get('input_values') or {}).items():      # incl. defined auxiliaries (square roots) of the model
+        try:
+            env[n_] = Fraction(v_) if isinstance(v_, str) else v_
+        except ValueError:
+            env[n_] = v_
     for name, spec in rec['inputs'].items():
         for i, (x, mk) in enumerate(zip(spec['data'], spec['mask'])):
             env['%s.d%d' % (name, i)] = Fraction(x)
